@@ -77,6 +77,25 @@ def run(ctx):
                'so the configuration is distinguishable from a fresh process' % (name, writers, readers),
                'gin/config.py:%d' % st.lineno, instance='unclassified')
 
+  # what survives a clear is left alone by it: clear_config (and what it calls) neither writes the registration stores nor
+  # touches the scope / parse-context stacks, which belong to the `with` blocks that are open around the call
+  reach_cc = set(prog.reachable([cc.qual])) | {cc.qual}
+  HANDS_OFF = {k for k in INFRA if k not in ('_OPERATIVE_CONFIG_LOCK', 'REQUIRED', '_ARG_SPEC_CACHE')}
+  touched = [a for a in acc if a.store in HANDS_OFF and a.func is not None and (a.func.qual in reach_cc or any(a.func.qual.startswith(q + '.') for q in reach_cc))]
+  bad_t = []
+  for a in touched:
+    stack_like = a.store in ('_SCOPE_MANAGER', '_PARSE_CONTEXTS')
+    if a.kind in ('write', 'rebind') or (stack_like and a.func is cc):
+      bad_t.append(a)
+  ctx.check(not bad_t, 'C20.classified', con, 'clear_config leaves the registration stores and the scope / parse-context stacks alone (%d reads on its call paths)' % len(touched),
+            'clear_config %s %s (`%s`): %s' % (
+                ('touches', bad_t[0].store, bad_t[0].method or bad_t[0].kind,
+                 'the stack belongs to the `with` blocks open around the call: their exit then pops an entry that is not theirs, and the thread is left without a root scope '
+                 '(IndexError on every later call)' if bad_t[0].store in ('_SCOPE_MANAGER', '_PARSE_CONTEXTS') else
+                 'registered configurables / hooks / readers must remain after a clear') if bad_t else ('', '', '', '')),
+            bad_t[0].func.loc(bad_t[0].node) if bad_t else cc.loc(), sites=len(touched), instance='hands-off')
+  # the parse-context stack is classified as infrastructure *because* it is balanced: empty again after every parse
+  ctx.borrow('C16', 'C16.context', 'C20.classified')
   # ---- C20.complete
   for name, what in CONFIG_STATE.items():
     if name not in stores and name not in m.assigns:
@@ -179,7 +198,8 @@ def constants_after(cc, flag, mode):
     t = u(e).replace(' ', '')
     if t in (T + '.copy()', 'dict(%s)' % T, 'dict(%s.items())' % T, 'dict(%s.copy())' % T):
       return ('map', 'SNAP')
-    if t in ('list(%s.items())' % T, 'tuple(%s.items())' % T, 'list(%s.copy().items())' % T, 'sorted(%s.items())' % T):
+    if t in ('list(%s.items())' % T, 'tuple(%s.items())' % T, 'list(%s.copy().items())' % T, 'sorted(%s.items())' % T,
+             T + '.copy().items()', 'dict(%s).items()' % T, 'tuple(%s.copy().items())' % T):
       return ('pairs', 'SNAP')
     if t in ("[('gin.REQUIRED',REQUIRED)]", "(('gin.REQUIRED',REQUIRED),)"):
       return ('pairs', 'REQLIT')
